@@ -63,10 +63,19 @@ theorem lockW_getMeta (s : MState) (k k' : Bytes) : getMeta (lockW s k) k' = get
   unfold getMeta; rw [lockW_index]
 
 theorem lockW_pebble (s : MState) (k : Bytes) : (lockW s k).pebble = s.pebble := by
-  unfold lockW; split <;> rfl
+  unfold lockW; split
+  · rfl
+  · split <;> rfl
 
 theorem lockW_nextId (s : MState) (k : Bytes) : (lockW s k).nextId = s.nextId := by
-  unfold lockW; split <;> rfl
+  unfold lockW; split
+  · rfl
+  · split <;> rfl
+
+theorem lockW_disk (s : MState) (k : Bytes) : (lockW s k).disk = s.disk := by
+  unfold lockW; split
+  · rfl
+  · split <;> rfl
 
 /-- `writeKey` on a record that is ok, unexpired and hot: lock, bump the access counter -/
 theorem writeKey_hot_eq (s : MState) (k : Bytes) (now : Int) (mk : Option Val) (m : Meta) (v : Val)
@@ -242,12 +251,11 @@ theorem newKeyWith_other (s : MState) (k k' : Bytes) (v : Val) (hne : k ≠ k') 
 theorem newKeyWith_pebble (s : MState) (k : Bytes) (v : Val) :
     (newKeyWith s k none v).pebble = s.pebble := rfl
 
-/-- `Api.rotate` once the source lookup and the pop have succeeded and the keys differ -/
+/-- `Api.rotate` once the source lookup and the pop have succeeded (the keys may coincide) -/
 theorem rotate_eq (left : Bool) (s s1 : MState) (now : Int) (src dst : Bytes) (l l' : LList)
     (vs : List Bytes)
     (hw : writeKey s now src none = (s1, true)) (ha : Api.asList s1 src = some l)
-    (hp : (if left then DsList.lpop l 1 else DsList.rpop l 1) = (l', some vs))
-    (hne : src ≠ dst) :
+    (hp : (if left then DsList.lpop l 1 else DsList.rpop l 1) = (l', some vs)) :
     Api.rotate left s now src dst =
       match Api.asList (writeKey (srcPhase s1 src l') now dst (some (.list DsList.empty))).1 dst with
       | none => ((writeKey (srcPhase s1 src l') now dst (some (.list DsList.empty))).1, .panic)
@@ -256,7 +264,7 @@ theorem rotate_eq (left : Bool) (s s1 : MState) (now : Int) (src dst : Bytes) (l
             dst (.list (if left then DsList.rpush d vs else DsList.lpush d vs))) dst)
           (Api.opList (if left then 13 else 20) src [Bytes.toHex dst]), .bytes vs.head?) := by
   unfold Api.rotate
-  simp only [hw, ha, hp, Bool.not_true, Bool.false_eq_true, if_false, hne, false_and]
+  simp only [hw, ha, hp, Bool.not_true, Bool.false_eq_true, if_false]
   rfl
 
 /-- destination of a rotation from `src`: either not indexed at all (the list is then created, `d` is
@@ -310,7 +318,7 @@ theorem api_rotate (left : Bool) (s : MState) (src dst : Bytes) (l d : LList) (n
       obtain ⟨e1, e2, _⟩ := h3 x rest hl
       exact ⟨(DsList.lpop l 1).1, by rw [← e2], e1, lpop_wf l hwf 1⟩
   have hz : DsList.llen l' = 0 ↔ rest = [] := by rw [llen_zero_iff l' hwf', hitems']
-  rw [rotate_eq left s s1 now src dst l l' [x] hw (asList_holds s1 src l hh1) hpop hne]
+  rw [rotate_eq left s s1 now src dst l l' [x] hw (asList_holds s1 src l hh1) hpop]
   -- state after the source phase
   have hp4 : (srcPhase s1 src l').pebble = s.pebble := by rw [srcPhase_pebble, hp1]
   have hn4 : (srcPhase s1 src l').nextId = s.nextId := by rw [srcPhase_nextId, hn1]
@@ -391,6 +399,234 @@ theorem api_rotate (left : Bool) (s : MState) (src dst : Bytes) (l d : LList) (n
     · cases left
       · simp [lpush_eq]
       · simp [rpush_eq]
+
+/-! ### `src = dst`: the list is rotated in place
+
+  The second `writeKey` finds either the record the call already write-locked (reused: `lockW` is
+  the identity) or, when the only element was popped, no record at all (the key was unlinked, a new
+  record is created by `newKeyWith`). -/
+
+theorem markModified_isOk (m : Meta) : m.markModified.isOk = m.isOk := by
+  unfold Meta.markModified Meta.isOk
+  simp only
+  split
+  · rfl
+  · have : (m.state + 2) % 2 = m.state % 2 := by omega
+    rw [this]
+
+theorem markModified_expired (m : Meta) (now : Int) : m.markModified.expired now = m.expired now := rfl
+
+theorem markModified_value (m : Meta) : m.markModified.value = m.value := rfl
+
+/-- `setVal_self` keeping track of the state bits and the deadline as well -/
+theorem setVal_self' (s : MState) (k : Bytes) (v : Val) (m : Meta) (hm : getMeta s k = some m) :
+    ∃ m2, getMeta (Api.setVal s k v) k = some m2 ∧ m2.value = some v ∧ m2.state = m.state ∧
+      m2.exp = m.exp := by
+  rw [setVal_getMeta s k k v m hm, putMeta_self]
+  split
+  · exact ⟨_, rfl, rfl, rfl, rfl⟩
+  · simp only [Option.map_some]
+    split
+    · exact ⟨_, rfl, rfl, rfl, rfl⟩
+    · exact ⟨_, rfl, rfl, rfl, rfl⟩
+
+/-- after the source phase a list that kept an element is still ok / unexpired / hot -/
+theorem srcPhase_nonempty' (s1 : MState) (src : Bytes) (l' : LList) (m1 : Meta) (now : Int)
+    (hm : getMeta s1 src = some m1) (he : DsList.llen l' ≠ 0) :
+    ∃ m4, getMeta (srcPhase s1 src l') src = some m4 ∧ m4.value = some (.list l') ∧
+      m4.isOk = m1.isOk ∧ m4.expired now = m1.expired now := by
+  unfold srcPhase
+  rw [if_neg he, signal_self]
+  obtain ⟨m2, h1, h2, h3, h4⟩ := setVal_self' s1 src (.list l') m1 hm
+  rw [h1]
+  refine ⟨_, rfl, h2, ?_, ?_⟩
+  · rw [markModified_isOk]; unfold Meta.isOk; rw [h3]
+  · rw [markModified_expired]; unfold Meta.expired; rw [h4]
+
+/-! locks held by the running call (`held`) and the self-deadlock flag (`hung`) along the way -/
+
+theorem lockW_fresh (s : MState) (k : Bytes) (h : s.held = []) :
+    (lockW s k).held = [(k, true)] ∧ (lockW s k).hung = s.hung := by
+  unfold lockW
+  simp [h]
+
+theorem lockW_reuse (s : MState) (k : Bytes) (h : (k, true) ∈ s.held) : lockW s k = s := by
+  unfold lockW
+  have : (s.held.any fun h => decide (h.1 = k ∧ h.2 = true)) = true := by
+    rw [List.any_eq_true]
+    exact ⟨(k, true), h, by simp⟩
+  rw [if_pos this]
+
+theorem setVal_held (s : MState) (k : Bytes) (v : Val) : (Api.setVal s k v).held = s.held := by
+  unfold Api.setVal
+  split
+  · rfl
+  · simp only; split <;> rfl
+
+theorem setVal_hung (s : MState) (k : Bytes) (v : Val) : (Api.setVal s k v).hung = s.hung := by
+  unfold Api.setVal
+  split
+  · rfl
+  · simp only; split <;> rfl
+
+theorem signal_held (s : MState) (k : Bytes) : (signal s k).held = s.held := by
+  unfold signal modMeta; split <;> rfl
+
+theorem signal_hung (s : MState) (k : Bytes) : (signal s k).hung = s.hung := by
+  unfold signal modMeta; split <;> rfl
+
+theorem emit_hung (s : MState) (op : FeedOp) : (emit s op).hung = s.hung := by
+  unfold emit; split <;> rfl
+
+theorem srcPhase_hung (s1 : MState) (src : Bytes) (l' : LList) :
+    (srcPhase s1 src l').hung = s1.hung := by
+  unfold srcPhase; rw [signal_hung]; split
+  · exact setVal_hung s1 src _
+  · exact setVal_hung s1 src _
+
+theorem srcPhase_held_nonempty (s1 : MState) (src : Bytes) (l' : LList) (he : DsList.llen l' ≠ 0) :
+    (srcPhase s1 src l').held = s1.held := by
+  unfold srcPhase; rw [signal_held, if_neg he]; exact setVal_held s1 src _
+
+/-- LPOPRPUSH k k / RPOPLPUSH k k on a hot non-empty list: the moved element is the reply, the key
+    holds the rotated sequence (a freshly created record when the list had one element), and a call
+    that started without locks is not hung -/
+theorem api_rotate_same (left : Bool) (s : MState) (k : Bytes) (l : LList) (now : Int)
+    (x : Bytes) (rest : List Bytes)
+    (hsrc : HotList s k l now)
+    (hl : l.items = if left then x :: rest else rest ++ [x]) :
+    (Api.rotate left s now k k).2 = .bytes (some x) ∧
+    HoldsSeq (Api.rotate left s now k k).1 k (if left then rest ++ [x] else x :: rest) ∧
+    (s.held = [] → (Api.rotate left s now k k).1.hung = s.hung) := by
+  obtain ⟨hsorted, hwf, msrc, hms, hok, hexp, hval⟩ := hsrc
+  -- source lookup
+  have hw := writeKey_hot_eq s k now none msrc (.list l) hms hok hexp hval
+  have hlk : s.held = [] →
+      (putMeta (lockW s k) k { msrc with count := msrc.count + 1 }).held = [(k, true)] ∧
+      (putMeta (lockW s k) k { msrc with count := msrc.count + 1 }).hung = s.hung :=
+    fun h => lockW_fresh s k h
+  generalize hs1 : putMeta (lockW s k) k { msrc with count := msrc.count + 1 } = s1 at hw hlk
+  have hm1 : getMeta s1 k = some { msrc with count := msrc.count + 1 } := by
+    rw [← hs1]; exact putMeta_self _ _ _
+  have hh1 : Holds s1 k (.list l) := by
+    rw [← hs1]
+    apply putMeta_holds
+    · rw [lockW_index]; exact hsorted
+    · rw [lockW_getMeta, hms]; rfl
+    · exact hval
+  -- the pop
+  obtain ⟨l', hpop, hitems', hwf'⟩ : ∃ l', (if left then DsList.lpop l 1 else DsList.rpop l 1) = (l', some [x]) ∧
+      l'.items = rest ∧ l'.WF := by
+    cases left
+    · simp only [Bool.false_eq_true, if_false] at hl ⊢
+      obtain ⟨_, _, h3⟩ := rotate_right l DsList.empty
+      obtain ⟨e1, e2, _⟩ := h3 rest x hl
+      exact ⟨(DsList.rpop l 1).1, by rw [← e2], e1, rpop_wf l hwf 1⟩
+    · simp only [if_true] at hl ⊢
+      obtain ⟨_, _, h3⟩ := rotate_left l DsList.empty
+      obtain ⟨e1, e2, _⟩ := h3 x rest hl
+      exact ⟨(DsList.lpop l 1).1, by rw [← e2], e1, lpop_wf l hwf 1⟩
+  have hz : DsList.llen l' = 0 ↔ rest = [] := by rw [llen_zero_iff l' hwf', hitems']
+  rw [rotate_eq left s s1 now k k l l' [x] hw (asList_holds s1 k l hh1) hpop]
+  -- second lookup of the same key: the record is hot with a list `d` whose elements are `rest`
+  obtain ⟨s5, hs5, d, hdwf, hditems, m5, hm5, hv5, hh5⟩ : ∃ s5,
+      (writeKey (srcPhase s1 k l') now k (some (.list DsList.empty))).1 = s5 ∧
+      ∃ d : LList, d.WF ∧ d.items = rest ∧
+      ∃ m5, getMeta s5 k = some m5 ∧ m5.value = some (.list d) ∧
+        (s.held = [] → s5.hung = s.hung) := by
+    by_cases hr : rest = []
+    · -- the key was unlinked: it is created again
+      have hd4 : getMeta (srcPhase s1 k l') k = none := srcPhase_empty s1 k l' _ hh1 (hz.mpr hr)
+      refine ⟨_, rfl, DsList.empty, empty_wf, by rw [hr]; rfl, ?_⟩
+      unfold writeKey
+      rw [hd4]
+      simp only
+      obtain ⟨m, e1, e2, _⟩ := newKeyWith_self (srcPhase s1 k l') k (.list DsList.empty)
+      refine ⟨m, e1, e2, ?_⟩
+      intro hh
+      show (srcPhase s1 k l').hung = s.hung
+      rw [srcPhase_hung]; exact (hlk hh).2
+    · -- the record is still there and already write-locked by this call: reused
+      have hne0 : DsList.llen l' ≠ 0 := fun z => hr (hz.mp z)
+      obtain ⟨m4, g1, g2, g3, g4⟩ :=
+        srcPhase_nonempty' s1 k l' { msrc with count := msrc.count + 1 } now hm1 hne0
+      refine ⟨_, rfl, l', hwf', hitems', ?_⟩
+      rw [writeKey_hot_eq _ k now _ m4 (.list l') g1 (g3.trans hok) (g4.trans hexp) g2]
+      refine ⟨_, putMeta_self _ _ _, g2, ?_⟩
+      intro hh
+      show (lockW (srcPhase s1 k l') k).hung = s.hung
+      rw [lockW_reuse _ k (by rw [srcPhase_held_nonempty s1 k l' hne0, (hlk hh).1]; simp),
+        srcPhase_hung]
+      exact (hlk hh).2
+  rw [hs5]
+  have ha5 : Api.asList s5 k = some d := by simp [Api.asList, valOf, hm5, hv5]
+  rw [ha5]
+  simp only
+  obtain ⟨t1, _⟩ := dstPhase s5 k
+    (.list (if left then DsList.rpush d [x] else DsList.lpush d [x]))
+    (Api.opList (if left then 13 else 20) k [Bytes.toHex k]) m5 hm5
+  refine ⟨rfl, ⟨_, t1, ?_, ?_⟩, ?_⟩
+  · cases left
+    · exact lpush_wf d hdwf [x]
+    · exact rpush_wf d hdwf [x]
+  · cases left
+    · simp [lpush_eq, hditems]
+    · simp [rpush_eq, hditems]
+  · intro hh
+    rw [emit_hung, signal_hung, setVal_hung]
+    exact hh5 hh
+
+/-! ### source missing / dead / empty: nil reply -/
+
+/-- `writeKey` with a nil constructor on a key that is not indexed -/
+theorem writeKey_absent (s : MState) (now : Int) (k : Bytes) (h : getMeta s k = none) :
+    writeKey s now k none = (s, false) := by
+  unfold writeKey; rw [h]
+
+/-- `writeKey` with a nil constructor on a record that is not ok or whose deadline has passed:
+    locked, access counter bumped, reported as missing -/
+theorem writeKey_dead (s : MState) (now : Int) (k : Bytes) (m : Meta) (hm : getMeta s k = some m)
+    (hd : m.isOk = false ∨ m.expired now = true) :
+    writeKey s now k none = (putMeta (lockW s k) k { m with count := m.count + 1 }, false) := by
+  unfold writeKey
+  rw [hm]
+  have e1 : Meta.isOk { m with count := m.count + 1 } = m.isOk := rfl
+  have e2 : Meta.expired { m with count := m.count + 1 } now = m.expired now := rfl
+  simp only [e1, e2]
+  cases hok : m.isOk with
+  | false => simp
+  | true =>
+    rcases hd with hd | hd
+    · rw [hok] at hd; cases hd
+    · simp [hd]
+
+theorem api_rotate_absent (left : Bool) (s : MState) (now : Int) (src dst : Bytes)
+    (h : getMeta s src = none) : Api.rotate left s now src dst = (s, .bytes none) := by
+  unfold Api.rotate
+  simp only [writeKey_absent s now src h, Bool.not_false, if_true]
+
+theorem api_rotate_dead (left : Bool) (s : MState) (now : Int) (src dst : Bytes) (m : Meta)
+    (hm : getMeta s src = some m) (hd : m.isOk = false ∨ m.expired now = true) :
+    Api.rotate left s now src dst =
+      (putMeta (lockW s src) src { m with count := m.count + 1 }, .bytes none) := by
+  unfold Api.rotate
+  simp only [writeKey_dead s now src m hm hd, Bool.not_false, if_true]
+
+/-- a (hot, indexed) list without elements as the source: nil, and only the lookup happened -/
+theorem api_rotate_empty (left : Bool) (s : MState) (now : Int) (src dst : Bytes) (l : LList)
+    (hsrc : HotList s src l now) (he : l.items = []) :
+    (Api.rotate left s now src dst).2 = .bytes none ∧
+    valOf (Api.rotate left s now src dst).1 src = some (.list l) := by
+  obtain ⟨s1, hw, hh⟩ := writeKey_hot s src l now hsrc
+  have hp : (if left then DsList.lpop l 1 else DsList.rpop l 1) = (l, none) := by
+    cases left
+    · simp only [Bool.false_eq_true, if_false]
+      exact ((rotate_right l DsList.empty).2.1 he).1
+    · simp only [if_true]
+      exact ((rotate_left l DsList.empty).2.1 he).1
+  unfold Api.rotate
+  simp only [hw, asList_holds s1 src l hh, hp, Bool.not_true, Bool.false_eq_true, if_false]
+  exact ⟨trivial, valOf_holds s1 src _ hh⟩
 
 /-- LPUSH / RPUSH on a key that is not indexed: the list is created -/
 theorem api_push_create (left : Bool) (s : MState) (k : Bytes) (now : Int) (vs : List Bytes)
